@@ -92,7 +92,7 @@ func CFFamilies(tier string) []*FamilySpec {
 	// added as they are (not closed under reduction: that would multiply the quick corpus by four)
 	lists = append(lists, jumpContextCorpus(tier)...)
 	lists = append(lists, nestedLoopCorpus()...)
-	fams := []*FamilySpec{genFamily("CF", gen.CFAll, lists), HandFamily("pool", "pool.go.txt"), yexprFamily(tier), condFamily(tier), forClauseFamily(tier), swFormFamily(tier)}
+	fams := []*FamilySpec{genFamily("CF", gen.CFAll, lists), HandFamily("pool", "pool.go.txt"), yexprFamily(tier), condFamily(tier), forClauseFamily(tier), swFormFamily(tier), panicFamily(tier)}
 	return append(fams, ExampleFamilies()...)
 }
 
@@ -303,6 +303,39 @@ func jumpContextCorpus(tier string) []gen.List {
 					add(loop, gen.List{mk(a, gen.List{mk(b, gen.List{y, {K: j}}), e}), y})
 					add(loop, gen.List{mk(a, gen.List{{K: "IfElse", Ch: [][]*gen.Stmt{{y}, {{K: j}}}}, y}), y})
 					add(loop, gen.List{mk(a, gen.List{{K: "Block", Ch: [][]*gen.Stmt{{y, mk(b, gen.List{{K: j}})}}}}), y})
+				}
+			}
+		}
+	}
+	// native (yield-free) loops and switches whose body calls a plain closure before the jump: the
+	// jump belongs to the native statement and must stay a Go jump
+	clo := &gen.Stmt{K: "Clo"}
+	for _, j := range []string{"Br", "Co"} {
+		jmp := &gen.Stmt{K: j}
+		ifj := &gen.Stmt{K: "If", Ch: [][]*gen.Stmt{{jmp}}}
+		for _, nat := range []string{"While", "For3", "ForInf", "ForPostE"} {
+			natLoop := &gen.Stmt{K: nat, Ch: [][]*gen.Stmt{{clo, ifj, e}}}
+			for _, l := range []gen.List{
+				{natLoop, y},
+				{y, natLoop, y},
+				{{K: "ForPostY", Ch: [][]*gen.Stmt{{natLoop, y}}}, e},
+				{{K: "While", Ch: [][]*gen.Stmt{{y, natLoop, y}}}, e},
+			} {
+				if gen.CFAll.WellFormed(l) {
+					out = append(out, l)
+				}
+			}
+		}
+		for _, a := range sw {
+			natSw := mk(a, gen.List{clo, ifj, e})
+			natSw2 := mk(a, gen.List{clo, jmp})
+			for _, l := range []gen.List{
+				{{K: "ForPostY", Ch: [][]*gen.Stmt{{natSw, y}}}, e},
+				{{K: "While", Ch: [][]*gen.Stmt{{y, natSw2, y}}}, e},
+				{{K: "For3", Ch: [][]*gen.Stmt{{natSw, y}}}, e},
+			} {
+				if gen.CFAll.WellFormed(l) {
+					out = append(out, l)
 				}
 			}
 		}
